@@ -140,6 +140,7 @@ def run(rep: Report, tier: str) -> None:
 	rule_accessor(rep, idx)
 	rule_templates(rep)
 	rule_merge(rep, idx)
+	rule_identifier_classes(rep, idx)
 	rep.extra_coverage['tainted_sites'] = len(tainted_sites)
 	rep.extra_coverage['tainted_by_kind'] = {k: sum(1 for s in tainted_sites if s.kind == k) for k in sorted({s.kind for s in tainted_sites})}
 
@@ -434,3 +435,60 @@ def rule_merge(rep: Report, idx: SourceIndex) -> None:
 			r.violate('compared-declaration', (m.relpath, sel[0].lineno), f'_merged compares the added variable with ONE collected declaration, `{unparse(sel[0])[:100]}`: when two unrelated bindings share a spelling (a loop-local `t`, then a function-level `t`), the representative is the wrong one, the nested assignment `t = 1` becomes a new declaration (`int t = 1;` shadows the outer variable); renaming either binding changes the output', unparse(sel[0])[:120])
 	if not decided:
 		r.skip('compared-declaration', f.where, f'binding of the compared declaration not recognised ({sorted(bases)})')
+
+
+def rule_identifier_classes(rep: Report, idx: SourceIndex) -> None:
+	"""The post-processing regexps of the C++ back end re-read identifiers out of rendered code (class variable names, parameter names, member names in
+	`this->x`). A Python identifier may contain upper- and lower-case letters, digits and `_`: a hand-written character class that lists `a-z` without
+	`A-Z` (or the reverse) and is not compiled with IGNORECASE matches a name or not depending on its letter case, so renaming `_lim` to `_Lim` changes
+	what the pattern extracts (here: the access specifier of the member falls back to public)."""
+	import re._parser as sre
+	r = rep.rule('C08/regexp-identifier-classes-case-complete', 'every character class in the constant regexps of the C++ back end that contains a letter range contains both cases (or \\w), unless the pattern is compiled with IGNORECASE', floor=10)
+	n_pat = 0
+	for rel in ('rogw/tranp/implements/cpp/transpiler/py2cpp.py', 'rogw/tranp/implements/cpp/view/cpp_view_helper.py'):
+		m = idx.mod(rel)
+		rep.consulted(rel)
+		for c_ in ast.walk(m.tree):
+			if not (isinstance(c_, ast.Call) and attr_chain(c_.func) in ('re.compile', 're.sub', 're.search', 're.match', 're.fullmatch', 're.split', 're.findall') and c_.args):
+				continue
+			pat = c_.args[0]
+			text = None
+			if isinstance(pat, ast.Constant) and isinstance(pat.value, str):
+				text = pat.value
+			elif isinstance(pat, ast.JoinedStr):
+				text = ''.join(v.value if isinstance(v, ast.Constant) else 'X' for v in pat.values)  # interpolated parts stand for one word character
+			if text is None:
+				continue
+			n_pat += 1
+			flags = ' '.join(unparse(a) for a in c_.args[1:]) + ' '.join(unparse(kw.value) for kw in c_.keywords)
+			key = f'{rel}:{text[:40]}'
+			try:
+				tree = sre.parse(text)
+			except Exception as e:
+				r.skip(key, (rel, c_.lineno), f'pattern not parseable: {e}')
+				continue
+			bad = []
+
+			def scan(seq):
+				for op, av in seq:
+					if op is sre.IN:
+						ranges = [(a, b) for o2, (a, b) in [(o, v) for o, v in av if o is sre.RANGE]]
+						has_word = any(o is sre.CATEGORY and v in (sre.CATEGORY_WORD, sre.CATEGORY_NOT_WORD) for o, v in av)
+						lower = any(a <= ord('a') and b >= ord('z') for a, b in ranges)
+						upper = any(a <= ord('A') and b >= ord('Z') for a, b in ranges)
+						if (lower != upper) and not has_word:
+							bad.append('[a-z] without [A-Z]' if lower else '[A-Z] without [a-z]')
+					elif op in (sre.MAX_REPEAT, sre.MIN_REPEAT):
+						scan(av[2])
+					elif op is sre.SUBPATTERN:
+						scan(av[3])
+					elif op is sre.BRANCH:
+						for b in av[1]:
+							scan(b)
+					elif op in (sre.ASSERT, sre.ASSERT_NOT):
+						scan(av[1])
+			scan(list(tree))
+			ignore = 'IGNORECASE' in flags or 're.I' in flags or text.startswith('(?i')
+			r.check(not bad or ignore, key, (rel, c_.lineno), f'the pattern `{text[:70]}` has a character class with {bad[0] if bad else ""}: an identifier is matched or not depending on its letter case (`_lim` matches, `_Lim` does not), so a consistent renaming changes what is extracted from the rendered code', text[:100])
+	if n_pat == 0:
+		r.skip('patterns', None, 'no constant regexp found in the C++ back end')
